@@ -15,7 +15,7 @@ LEVEL = "model_checking"
 RULE = (
     "operation sequences over add_plugin(plugin in {P1{alpha,beta}, P2{beta,gamma}, P3{alpha,gamma,slsqp; not "
     "discoverable}}, name in case variants incl. a name clash, normal|prioritized) on manager 0 or 1, on top of the real "
-    "entry-point plug-ins; after every step ALL 27 lookups (incl. method names that contain a slash, and method names a plug-in matches case-sensitively) (bare names, plugin/method in mixed case, unknown plug-ins and "
+    "entry-point plug-ins; after every step ALL 32 lookups (incl. method names that contain a slash, and method names a plug-in matches case-sensitively) (bare names, plugin/method in mixed case, unknown plug-ins and "
     "methods) via get_plugin and is_supported plus plugins() order are compared on BOTH managers with an ordered-list "
     "reference registry. Exhaustive for length <=3 (quick) / <=5 (thorough) for plug-in type 'optimizer', length <=2 for "
     "the five other types; a Hypothesis rule-based state machine adds long random histories with interleaved lookups. "
@@ -25,6 +25,15 @@ ASSUMPTIONS = [
     "the initial registry of a fresh PluginManager (entry-point plug-ins and their order) is taken as the baseline of the model",
     "fake plug-ins lower-case the method name themselves, as all built-in plug-ins do",
 ]
+
+# An entry-point plug-in with a mixed-case name ('MyExt', every plug-in type) is installed for this check: its directory must be on
+# sys.path before the first PluginManager of the process is created (ropt caches the entry points).
+import os as _os
+import sys as _sys
+
+_EXT = _os.path.join(_os.path.dirname(_os.path.dirname(_os.path.abspath(__file__))), "harness", "extplug19")
+if _EXT not in _sys.path:
+    _sys.path.insert(0, _EXT)
 
 TYPES = ["optimizer", "sampler", "realization_filter", "function_estimator", "plan_handler", "plan_step"]
 
@@ -57,7 +66,7 @@ def universe() -> dict[str, Fake]:
 
 
 ADDS = [("P1", "p1", False), ("P1", "P1", True), ("P2", "p2", False), ("P2", "P2", True), ("P3", "p3", False),
-        ("P3", "P3", True), ("P2", "P1", False)]
+        ("P3", "P3", True), ("P2", "P1", False), ("P1", "myext", False)]  # the last one collides with the installed entry-point plug-in 'MyExt'
 REAL_METHOD = {"optimizer": "slsqp", "sampler": "norm", "realization_filter": "sort-objective", "function_estimator": "mean",
                "plan_handler": "tracker", "plan_step": "evaluator"}
 
@@ -69,7 +78,9 @@ def lookups(ptype: str) -> list[str]:
             # method names that themselves contain a slash: only the part before the FIRST slash names the plug-in
             "p3/sub/alpha", "P3/p1/beta", "p1/sub/alpha",
             # the method part is handed to the plug-in as written (P2 matches 'Delta' case-sensitively)
-            "Delta", "delta", "p2/Delta", "P2/Delta", "p2/delta", "P2/sub/Eps", "p2/sub/eps", f"external/scipy/{real}" if ptype == "optimizer" else "p3/Sub/Alpha"]
+            "Delta", "delta", "p2/Delta", "P2/Delta", "p2/delta", "P2/sub/Eps", "p2/sub/eps",
+            # the entry-point plug-in installed as 'MyExt'
+            "ext-alpha", "myext/ext-alpha", "MyExt/ext-alpha", "MYEXT/EXT-ALPHA", "myext/alpha", f"external/scipy/{real}" if ptype == "optimizer" else "p3/Sub/Alpha"]
 
 
 class Model:
@@ -103,7 +114,7 @@ class Model:
 
 def observe(case: Any, ptype: str, managers: list[PluginManager], models: list[Model], step: int) -> None:  # noqa: ANN401
     for m_i, (mgr, model) in enumerate(zip(managers, models)):
-        got_order = [(n, id(p)) for n, p in mgr.plugins(ptype)]  # type: ignore[arg-type]
+        got_order = [(n.lower(), id(p)) for n, p in mgr.plugins(ptype)]  # type: ignore[arg-type]
         exp_order = [(n, id(p)) for n, p in model.entries]
         check(got_order == exp_order, "registry-order",
               f"step {step}, manager {m_i}: plugins() = {[n for n, _ in got_order]}, expected {[n for n, _ in exp_order]}", case)
@@ -125,7 +136,8 @@ def run_sequence(case: dict[str, Any]) -> dict[str, Any]:
     ptype = case["type"]
     uni = universe()
     managers = [PluginManager(), PluginManager()]
-    models = [Model(list(m.plugins(ptype))) for m in managers]  # type: ignore[arg-type]
+    models = [Model([(n.lower(), p) for n, p in m.plugins(ptype)]) for m in managers]  # type: ignore[arg-type]
+    check(any(n == "myext" for n, _ in models[0].entries), "harness", "the entry-point plug-in 'MyExt' was not discovered", case)
     check([n for n, _ in models[0].entries] == [n for n, _ in models[1].entries], "isolation", "fresh managers differ", case)
     observe(case, ptype, managers, models, 0)
     ok = dup = prio = 0
@@ -189,7 +201,7 @@ def machine_shard(item: dict[str, Any]) -> Collector:
             self.ptype = ptype
             self.uni = universe()
             self.managers = [PluginManager(), PluginManager()]
-            self.models = [Model(list(m.plugins(ptype))) for m in self.managers]  # type: ignore[arg-type]
+            self.models = [Model([(n.lower(), p) for n, p in m.plugins(ptype)]) for m in self.managers]  # type: ignore[arg-type]
             self.trace: list[Any] = [ptype]
             self.stats = {"ok": 0, "dup": 0, "prio": 0}
 
@@ -211,7 +223,7 @@ def machine_shard(item: dict[str, Any]) -> Collector:
             self.stats["prio"] += prioritize and did
             self._check(did == expect_ok, "duplicate", f"add_plugin({name!r},{tag},{prioritize}) accepted={did}, expected {expect_ok}")
 
-        @rule(m_i=st.integers(0, 1), l_i=st.integers(0, 26), use_supported=st.booleans())
+        @rule(m_i=st.integers(0, 1), l_i=st.integers(0, 31), use_supported=st.booleans())
         def lookup(self, m_i: int, l_i: int, use_supported: bool) -> None:  # noqa: FBT001
             method = lookups(self.ptype)[l_i]
             self.trace.append(["lookup", m_i, l_i, use_supported])
@@ -265,7 +277,7 @@ def replay(case: dict[str, Any]) -> None:
         ptype = trace[0]
         uni = universe()
         managers = [PluginManager(), PluginManager()]
-        models = [Model(list(m.plugins(ptype))) for m in managers]
+        models = [Model([(n.lower(), p) for n, p in m.plugins(ptype)]) for m in managers]
         for step, op in enumerate(trace[1:], start=1):
             if op[0] == "add":
                 tag, name, prioritize = ADDS[op[2]]
